@@ -9,7 +9,8 @@
 From Coq Require Import String Ascii ZArith List Bool.
 From Verif Require Import lib.Arith lib.ArithOptZ model.Series model.SeriesOps model.Databox model.Slate model.Csv gen.CsvGen
   proofs.SeriesProofs proofs.SeriesOpsProofs proofs.DataboxProofs proofs.CsvProofs
-  gen.Csv4Gen model.Csv4 proofs.Databox4Proofs proofs.Csv4Proofs.
+  gen.Csv4Gen model.Csv4 proofs.Databox4Proofs proofs.Csv4Proofs
+  gen.Csv5Gen model.Csv5 proofs.Csv5Proofs.
 Import ListNotations.
 Open Scope Z_scope.
 
@@ -333,6 +334,53 @@ Theorem C19_ops_other_databoxes_untouched : forall A (ops : list dop) (rs : dreg
   (forall o, In o ops -> op_dst o <> r) -> getd A (fst (drun A rs ops)) r = getd A rs r.
 Proof. exact drun_other_register. Qed.
 Print Assumptions C19_ops_other_databoxes_untouched.
+
+(* ---- round 5: the selected periods of a block are an arbitrary list (Span with any step, descending, hand-picked) ---- *)
+
+(* the array the exporter builds (one array per name read through the accessor regenerated from the source, stacked by
+   hstack behind an empty lead): row i holds the values of all series of the block AT period i of the selected list *)
+Theorem C19_csv_data_array_rows : forall A (its : list (string * (string * series A))) ps,
+  data_array A its ps = map (fun t => flat_map (fun p => row_at A (snd (snd p)) t) its) ps.
+Proof. exact data_array_rows. Qed.
+Print Assumptions C19_csv_data_array_rows.
+
+(* the block as the source assembles it (zip of the selected periods with the rows of that array) is the block of
+   model/Csv.v that C19_csv_roundtrip / C19_csv_values_on_span are about -- for every list of periods *)
+Theorem C19_csv_block_of_source : forall A fmt_period fmt_val rnd (o : wopts) total f ps
+  (its : list (string * (string * series A))),
+  block_grid_src A fmt_period fmt_val rnd o total f ps its = block_grid A fmt_period fmt_val rnd o total f ps its.
+Proof. exact block_grid_src_eq. Qed.
+Print Assumptions C19_csv_block_of_source.
+
+(* in the sheet, next to the date of the i-th selected period stand, for every series of the block, its (rounded)
+   values at THAT period *)
+Theorem C19_csv_row_holds_values_at_its_period : forall A fmt_period fmt_val rnd (o : wopts) total f ps
+  (its : list (string * (string * series A))) i,
+  (i < length ps)%nat ->
+  nth ((if w_desc o then 2 else 1) + i) (block_grid_src A fmt_period fmt_val rnd o total f ps its) []
+  = fmt_period f (nth i ps 0)
+    :: flat_map (fun p => map (val_cell A fmt_val rnd (w_nan o)) (row_at A (snd (snd p)) (nth i ps 0))) its
+    ++ [""%string].
+Proof. exact block_row_at_its_period. Qed.
+Print Assumptions C19_csv_row_holds_values_at_its_period.
+
+(* one slice from the first to the last selected period is the same data exactly on runs of consecutive increasing
+   periods ... *)
+Theorem C19_csv_slice_equals_lookup_on_runs : forall A (s : series A) a b, a <= b ->
+  sliced_rows A s (zrange a (b + 1)) = get_data A s (zrange a (b + 1)).
+Proof. exact sliced_rows_on_runs. Qed.
+Print Assumptions C19_csv_slice_equals_lookup_on_runs.
+
+(* ... and not on other lists of distinct periods (every second period; a descending span) *)
+Theorem C19_csv_slice_refuted :
+  (exists (s : series OZArith) ps, NoDup ps /\ sliced_rows OZArith s ps <> get_data OZArith s ps) /\
+  sliced_rows OZArith s5 [10; 12; 14] = [[Some 1]; [Some 2]; [Some 3]; [Some 4]; [Some 5]] /\
+  get_data OZArith s5 [10; 12; 14] = [[Some 1]; [Some 3]; [Some 5]] /\
+  sliced_rows OZArith s5 [12; 11; 10] = [] /\
+  get_data OZArith s5 [12; 11; 10] = [[Some 3]; [Some 2]; [Some 1]].
+Proof. exact sliced_rows_refuted. Qed.
+Print Assumptions C19_csv_slice_refuted.
+
 
 (* non-vacuity: a lawful carrier, a concrete sheet that round-trips, a concrete history *)
 Example C19_nonvacuous :
